@@ -165,11 +165,14 @@ func probOutcome(o probObs) string {
 	return fmt.Sprintf("%v/parse=%v/confl=%d/learned=%d/units=%d", o.status, o.parseStat, min3(o.stats.NbConflicts), min3(o.stats.NbLearned), min3(o.stats.NbUnitLearned))
 }
 
+var currentOpts choice.Opts
+
 // exploreProb is the shared Exec skeleton: one execution per choice list.
 func exploreProb(r *core.Rec, dev int, sample interface{}, tag string, run func(choices []int) []core.Failure) []core.Failure {
 	var fails []core.Failure
 	opts := choice.Std(dev)
 	opts.Stop = r.Expired
+	currentOpts = opts
 	st := choice.Explore(opts, r.ReplayChoices, func(ctl *choice.Ctl, choices []int) bool {
 		ctl.OnState = r.State
 		currentCtl = ctl
